@@ -136,6 +136,7 @@ def run(rep: core.Report):
     _r19e(rep)
     _r19h(rep)
     _r19k(rep)
+    _r19l(rep)
     from rules import shared_bcast
 
     shared_bcast.run(rep, "R19i", ["phonopy/phonon/thermal_displacement.py", "phonopy/phonon/random_displacements.py"])
@@ -227,6 +228,32 @@ def run(rep: core.Report):
                  f"the two classes of commensurate points are not treated with real / complex phases respectively ({'; '.join(bad) or 'loops over ' + str(sorted(loops))})", line=prep.lineno)
     part = [s for s in ast.walk(core.find_def(RD, "RandomDisplacements._setup_sampling_qpoints")) if isinstance(s, ast.Assign) and "categorize_commensurate_points" in core.src(s.value)]
     rep.instance("R19c", RD, "RandomDisplacements._setup_sampling_qpoints", core.src(part[0]) if part else "<vanished>", len(part) == 1 and core.src(part[0].targets[0]) == "(self._ii, self._ij)", "the ii/ij partition is not computed once by categorize_commensurate_points", line=part[0].lineno if part else 0)
+
+
+def _r19l(rep):
+    """Spectral reassembly D = V diag(w) V^H, decided entry by entry on symbolic arrays (two q-points, two bands)."""
+    from engine import symnp
+
+    rep.rule("R19l", "rebuilding the dynamical matrices from eigen-solutions: create_dynamical_matrices stores, for every q-point, D[i][j] = sum_k V[i][k] w[k] conj(V[j][k]) with V the matrix whose COLUMNS are the eigenvectors (symbolic evaluation of the numpy statements on complex symbols, loop or batched form alike): the conjugate on the other factor gives the complex conjugate D*, i.e. D(-q)", 1)
+    rel = "phonopy/harmonic/dynmat_to_fc.py"
+    fn = core.find_def(rel, "DynmatToForceConstants.create_dynamical_matrices")
+    params = [a.arg for a in fn.args.args if a.arg != "self"]
+    if len(params) != 2:
+        raise AnalysisError("R19l: create_dynamical_matrices no longer takes (eigenvalues, eigenvectors)")
+    nq, nb = 2, 2
+    w = [[sp.Symbol(f"w{q}{k}", real=True) for k in range(nb)] for q in range(nq)]
+    V = [[[sp.Symbol(f"v{q}{i}{k}") for k in range(nb)] for i in range(nb)] for q in range(nq)]
+    evl = symnp.Evaluator({params[0]: w, params[1]: V}, where="create_dynamical_matrices")
+    symnp.run_block(evl, fn.body)
+    got = evl.env.get("self.dynamical_matrices", evl.env.get("self._dynmat"))
+    if got is None:
+        raise AnalysisError("R19l: create_dynamical_matrices stores no dynamical matrices")
+    want = [[[sum(V[q][i][k] * w[q][k] * sp.conjugate(V[q][j][k]) for k in range(nb)) for j in range(nb)] for i in range(nb)] for q in range(nq)]
+    ok = symnp.shape(got) == (nq, nb, nb) and all(sp.expand(got[q][i][j] - want[q][i][j]) == 0 for q in range(nq) for i in range(nb) for j in range(nb))
+    sample = str(got[0][0][1]) if symnp.shape(got) == (nq, nb, nb) else f"shape {symnp.shape(got)}"
+    what = "the complex conjugate (the matrix of -q)" if symnp.shape(got) == (nq, nb, nb) and all(sp.expand(got[q][i][j] - sp.conjugate(want[q][i][j])) == 0 for q in range(nq) for i in range(nb) for j in range(nb)) else "another matrix"
+    rep.instance("R19l", rel, "DynmatToForceConstants.create_dynamical_matrices", "D[q][i][j] = sum_k V[q][i][k] w[q][k] conj(V[q][j][k]) for 2 q-points x 2 bands", ok,
+                 f"the stored matrix has D[0][0][1] = {sample}, not sum_k V[0][0][k] w[0][k] conj(V[0][1][k]): it is {what}; force constants rebuilt from unmodified eigen-solutions are not the original ones whenever a commensurate point has a complex dynamical matrix", line=fn.lineno, sample={"D[0][0][1]": sample})
 
 
 def _r19g(rep):
@@ -517,6 +544,11 @@ def selftest():
     V = []
     b = lambda name, file, old, new, rule, expect="", **kw: V.append(dict(name=name, kind="break", file=file, old=old, new=new, rule=rule, expect=expect, **kw))
     n = lambda name, file, old, new, **kw: V.append(dict(name=name, kind="neutral", file=file, old=old, new=new, **kw))
+    D2F = "phonopy/harmonic/dynmat_to_fc.py"
+    b("batched reassembly with the conjugate on the left factor", D2F, "        dm = []\n        for eigvals, eigvecs in zip(eigenvalues, eigenvectors):\n            dm.append(np.dot(np.dot(eigvecs, np.diag(eigvals)), eigvecs.T.conj()))\n        self.dynamical_matrices = dm\n", "        eigvals = np.asarray(eigenvalues)\n        eigvecs = np.asarray(eigenvectors)\n        self.dynamical_matrices = np.matmul(\n            eigvecs.conj() * eigvals[:, None, :], eigvecs.transpose(0, 2, 1)\n        )\n", "R19l", "create_dynamical_matrices")
+    n("batched reassembly, conjugate on the right factor", D2F, "        dm = []\n        for eigvals, eigvecs in zip(eigenvalues, eigenvectors):\n            dm.append(np.dot(np.dot(eigvecs, np.diag(eigvals)), eigvecs.T.conj()))\n        self.dynamical_matrices = dm\n", "        eigvals = np.asarray(eigenvalues)\n        eigvecs = np.asarray(eigenvectors)\n        self.dynamical_matrices = np.matmul(\n            eigvecs * eigvals[:, None, :], eigvecs.conj().transpose(0, 2, 1)\n        )\n")
+    n("reassembly by einsum", D2F, "        dm = []\n        for eigvals, eigvecs in zip(eigenvalues, eigenvectors):\n            dm.append(np.dot(np.dot(eigvecs, np.diag(eigvals)), eigvecs.T.conj()))\n        self.dynamical_matrices = dm\n", "        self.dynamical_matrices = np.einsum(\n            \"qik,qk,qjk->qij\", eigenvectors, eigenvalues, np.conj(eigenvectors)\n        )\n")
+    b("reassembly from rows instead of columns", D2F, "np.dot(np.dot(eigvecs, np.diag(eigvals)), eigvecs.T.conj())", "np.dot(np.dot(eigvecs.T, np.diag(eigvals)), eigvecs.conj())", "R19l", "create_dynamical_matrices")
     b("Q2 without the zero-point half", TD, "((self._get_population(freq, t) + 0.5) / (freq * 1e12 * 2 * np.pi))", "((self._get_population(freq, t)) / (freq * 1e12 * 2 * np.pi))", "R19a", "_get_Q2")
     b("sampler unit conversion misses 2 pi", RD, "self._unit_conversion = Hbar * EV / AMU / THz / (2 * np.pi) / Angstrom**2", "self._unit_conversion = Hbar * EV / AMU / THz / Angstrom**2", "R19a", "sigma_quantum")
     b("classical sigma divides by f squared", RD, "sigma = np.sqrt(T * self._unit_conversion_classical) / freqs", "sigma = np.sqrt(T * self._unit_conversion_classical) / freqs**2", "R19a", "sigma_classical")
